@@ -1400,6 +1400,158 @@ Proof.
 Qed.
 
 
+(* ---- layer 4b: from r-send to delivery attempt ------------------------------------------------------------- *)
+(* a supported digest of a tag whose sender is not faulty is the digest of what that sender sent *)
+Lemma Sup_send_digest : forall g, INV g -> U1 g -> forall k id s d, Sup g (id, k, s) d -> byz k = false ->
+  forall dst m, In (k, dst, m) (gsent g) -> m_act m = 1 -> mtag m = (id, k, s) -> d = H (m_pay m).
+Proof.
+  intros g I A1 k id s d (L & ND & Len & AL) Nb dst m Im Am Tm.
+  destruct (nodup_exceeds_honest B L ND) as (l & J & NB); [lia|].
+  destruct (AL l J) as (_ & [Y|(dst' & x & Ix & Tx & Ax & Px)]); [exfalso; auto|].
+  pose proof I as (_ & _ & _ & _ & A4 & _).
+  destruct (A4 _ _ _ Ix Ax) as (m' & Tm' & Am' & Pm' & M).
+  assert (Jx : m_j x = k). { unfold mtag in Tx. inversion Tx. reflexivity. }
+  rewrite Jx in M. destruct M as [M|M]; [congruence|].
+  rewrite <- Px, Pm'. f_equal. eapply A1; eauto. congruence.
+Qed.
+
+Definition sent_echo (g : gst) (l q : Z) (tg : tagT) (d : Z) : Prop :=
+  exists m, In (l, q, m) (gsent g) /\ mtag m = tg /\ m_act m = 2 /\ m_pay m = d.
+
+Definition K5 (g : gst) := forall q k id s, filt (gp g q) FSend k (id, k, s) = true -> byz k = false ->
+  exists v, (exists dst m, In (k, dst, m) (gsent g) /\ mtag m = (id, k, s) /\ m_act m = 1 /\ m_pay m = v) /\
+            mbar (gp g q) (id, k, s) = Some v /\ echoed g q (id, k, s) (H v).
+Definition G0e (g : gst) := forall q l tg, filt (gp g q) FEcho l tg = true ->
+  byz l = true \/ exists m, In (l, q, m) (gsent g) /\ mtag m = tg /\ m_act m = 2.
+Definition G4e (g : gst) := forall q tg d, toolong tg d = false ->
+  exists L, NoDup L /\ Z.of_nat (length L) = ed (gp g q) tg d /\
+    (forall l, In l L -> filt (gp g q) FEcho l tg = true) /\
+    (forall l, filt (gp g q) FEcho l tg = true -> byz l = false -> sent_echo g l q tg d -> In l L).
+
+Section OneStep4b.
+Variables (g g' : gst) (p : Z) (st' : pst) (out : list (Z * msg)) (r : dres) (offer : option (Z * msg)).
+Hypothesis Hp : hon p.
+Hypothesis Q : qstep (gp g p) st' out r offer.
+Hypothesis Q2 : pstep2 (gp g p) st' out r offer.
+Hypothesis Q3 : pstep3 (gp g p) st' out offer.
+Hypothesis Q4 : pstep4 (gp g p) st' out r offer.
+Hypothesis Ecur : cur st' = cur (gp g p).
+Hypothesis Efifo : fifo st' = fifo (gp g p).
+Hypothesis DR : dres_ok skip (gp g p) st' r.
+Hypothesis CR : forall l m, offer = Some (l, m) -> can_recv n byz g p l m = true.
+Hypothesis Egp : gp g' = updZ (gp g) p st'.
+Hypothesis Esent : gsent g' = gsent g ++ tagged p out.
+Hypothesis Elog : glog g' = glog g ++ log_of p r.
+Hypothesis Ig : INV g.
+Hypothesis Ig' : INV g'.
+Hypothesis I2g : INV2 g.
+Hypothesis I2g' : INV2 g'.
+Hypothesis I4g : INV4a g.
+Hypothesis I4g' : INV4a g'.
+
+Let smonob := sent_mono g g' p out Esent.
+Let scasesb := state_cases g g' p st' Egp.
+Let snewb := snew g g' p out Esent.
+Let in_taggedb := in_tagged g g' p out Esent.
+Let p_rangeb := p_range p Hp.
+
+Lemma byz_p : byz p = false.
+Proof. pose proof Hp as X. unfold honest in X. apply andb_true_iff in X. destruct X as [_ X]. apply negb_true_iff in X. exact X. Qed.
+
+Lemma gp_p : gp g' p = st'.
+Proof. destruct (scasesb p) as [[_ E]|[N _]]; [exact E|congruence]. Qed.
+
+Lemma echoed_monob : forall q tg d, echoed g q tg d -> echoed g' q tg d.
+Proof. intros q tg d (dst & m & I & E). exists dst, m. split; auto. Qed.
+
+(* a payload that replaces a stored one is supported *)
+Lemma changed_mbar_Sup : forall tg x x', mbar (gp g p) tg = Some x -> mbar st' tg = Some x' -> x' <> x -> Sup g' tg (H x').
+Proof.
+  intros tg x x' M M' NE. destruct I2g' as (_ & Om' & Rh' & _).
+  destruct Q2 as (Mc & _). destruct (Mc tg) as [E|(y & E & C)]; [congruence|].
+  rewrite M' in E. inversion E; subst y. destruct C as [(N & _)|[D|LA]]; [congruence| |].
+  - apply (dbar_Sup g' Ig' p). rewrite gp_p. exact D.
+  - apply (laccept_Sup g' Rh' Om' p). rewrite gp_p. exact LA.
+Qed.
+
+Lemma K5_step : K5 g -> K5 g'.
+Proof.
+  intros IH q k id s F Nb. pose proof I4g' as (_ & _ & _ & _ & _ & _ & A1' & _).
+  pose proof I4g as (_ & _ & _ & _ & _ & _ & A1 & _).
+  assert (OLD : forall q0, filt (gp g q0) FSend k (id, k, s) = true ->
+            exists v, (exists dst m, In (k, dst, m) (gsent g') /\ mtag m = (id, k, s) /\ m_act m = 1 /\ m_pay m = v) /\
+                      mbar (gp g q0) (id, k, s) = Some v /\ echoed g' q0 (id, k, s) (H v)).
+  { intros q0 F0. destruct (IH _ _ _ _ F0 Nb) as (v & (dst & m & Im & Em) & M & E).
+    exists v. split; [exists dst, m; auto|]. split; auto. apply echoed_monob. exact E. }
+  destruct (scasesb q) as [[-> E]|[N E]]; rewrite E in *; [|apply OLD; exact F].
+  destruct (filt (gp g p) FSend k (id, k, s)) eqn:F0.
+  - destruct (OLD p F0) as (v & (dst & m & Im & Tm & Am & Pm) & M & Ec).
+    exists v. split; [exists dst, m; auto|]. split; auto.
+    destruct (mbar st' (id, k, s)) as [x'|] eqn:M'.
+    + destruct (Z.eq_dec x' v) as [->|NE]; auto. exfalso.
+      pose proof (changed_mbar_Sup _ _ _ M M' NE) as S.
+      pose proof (Sup_send_digest g' Ig' A1' k id s _ S Nb dst m Im Am Tm) as X. apply H_inj in X. congruence.
+    + exfalso. apply (mbar_keep g p st' out r offer Q2 (id, k, s)); congruence.
+  - destruct Q4 as (_ & Sc & _). destruct (Sc _ _ F0 F) as (m & Eo & Tm & Am & C).
+    destruct (can_recv_spec g p k m (CR k m Eo)) as (_ & [Y|Im]); [congruence|].
+    destruct C as [C|[(x & Mx & NE)|(Al & M')]].
+    + exfalso. apply C. unfold mtag in Tm. inversion Tm. reflexivity.
+    + exfalso. destruct I2g as (Th & _). destruct (Th _ _ _ Mx) as [Ec|S].
+      * destruct Ec as (dst & e & Ie & Te & Ae & _). pose proof Ig as (_ & _ & A3a & _).
+        pose proof (A3a _ _ _ Ie Ae) as X. rewrite Te in X.
+        assert (Je : m_j e = k). { unfold mtag in Te. inversion Te. reflexivity. } rewrite Je in X. congruence.
+      * pose proof (Sup_send_digest g Ig A1 k id s _ S Nb p m Im Am (eq_sym Tm)) as X. apply H_inj in X. congruence.
+    + exists (m_pay m). split; [exists p, m; auto|]. split; auto.
+      exists p, (Msg (m_id m) (m_j m) (m_s m) 2 (H (m_pay m))). split; [|repeat split; auto].
+      apply in_taggedb. apply Al. apply range_in. exact p_rangeb.
+Qed.
+
+Lemma G0e_step : G0e g -> G0e g'.
+Proof.
+  intros IH q l tg F. destruct (scasesb q) as [[-> E]|[N E]]; rewrite E in *.
+  - destruct (filt (gp g p) FEcho l tg) eqn:F0.
+    + destruct (IH _ _ _ F0) as [Y|(m & I & X)]; auto. right. exists m. auto.
+    + destruct Q4 as (_ & _ & _ & _ & _ & _ & _ & _ & Fc & _). destruct (Fc _ _ F0 F) as (m & Eo & Tm & Am & _).
+      destruct (can_recv_spec g p l m (CR l m Eo)) as (_ & [Y|I]); auto. right. exists m. auto.
+  - destruct (IH _ _ _ F) as [Y|(m & I & X)]; auto. right. exists m. auto.
+Qed.
+
+Lemma echo_unique' : forall l d1 m1 d2 m2, In (l, d1, m1) (gsent g') -> In (l, d2, m2) (gsent g') ->
+  m_act m1 = 2 -> m_act m2 = 2 -> mtag m1 = mtag m2 -> m_pay m1 = m_pay m2.
+Proof. pose proof Ig' as (_ & _ & _ & A3 & _). exact A3. Qed.
+
+Lemma G4e_step : G0e g -> G4e g -> G4e g'.
+Proof.
+  intros I0 IH q tg d TL. destruct (scasesb q) as [[-> E]|[N E]]; rewrite E in *.
+  - destruct (IH p tg d TL) as (L & ND & Len & AF & AC).
+    pose proof Q as Q0. destruct Q0 as (Fm & Ce & _).
+    pose proof Q4 as Q40. destruct Q40 as (_ & _ & _ & _ & _ & _ & _ & _ & Fc & _).
+    assert (OLD : forall l, filt (gp g p) FEcho l tg = true -> byz l = false -> sent_echo g' l p tg d -> In l L).
+    { intros l F0 Nb (m & Im & Tm & Am & Pm). apply AC; auto.
+      destruct (I0 _ _ _ F0) as [Y|(m0 & I0m & T0m & A0m)]; [congruence|].
+      exists m0. repeat split; auto. rewrite <- Pm. eapply echo_unique'; eauto. congruence. }
+    destruct (Ce tg d) as [Er|(l & m & Eo & Et & Ed & Am & F0 & Er & F1)].
+    + exists L. split; [exact ND|]. split; [congruence|]. split; [intros l I; apply Fm; auto|].
+      intros l F Nb S. destruct (filt (gp g p) FEcho l tg) eqn:F0; [apply OLD; auto|].
+      exfalso. destruct (Fc _ _ F0 F) as (m & Eo & Tm & Am & C).
+      destruct (can_recv_spec g p l m (CR l m Eo)) as (_ & [Y|Im]); [congruence|].
+      destruct S as (m2 & Im2 & Tm2 & Am2 & Pm2).
+      assert (Pd : m_pay m = d). { rewrite <- Pm2. eapply echo_unique'; eauto. congruence. }
+      rewrite Pd in C. destruct C as [C|C]; [congruence|lia].
+    + exists (l :: L). split; [|split; [|split]].
+      * constructor; auto. intros I. apply AF in I. congruence.
+      * cbn [length]. lia.
+      * intros l0 [<-|I]; auto.
+      * intros l0 F Nb S. destruct (filt (gp g p) FEcho l0 tg) eqn:F00; [right; apply OLD; auto|].
+        destruct (Fc _ _ F00 F) as (m' & Eo' & _). rewrite Eo in Eo'. inversion Eo'. left. auto.
+  - destruct (IH q tg d TL) as (L & ND & Len & AF & AC). exists L. split; [exact ND|]. split; [exact Len|]. split; [exact AF|].
+    intros l F Nb (m & Im & Tm & Am & Pm). apply AC; auto.
+    destruct (I0 _ _ _ F) as [Y|(m0 & I0m & T0m & A0m)]; [congruence|].
+    exists m0. repeat split; auto. rewrite <- Pm. eapply echo_unique'; eauto. congruence.
+Qed.
+
+End OneStep4b.
+
 (* ---- the full liveness clause of C14, as a statement (NOT proved; totality_digest above is the part that is) -------- *)
 Definition kind_of (a : Z) : fkind :=
   if a =? 1 then FSend else if a =? 2 then FEcho else if a =? 3 then FReady else if a =? 4 then FRequest else FAnswer.
